@@ -599,6 +599,15 @@ class XPathToken(Token[ta.XPathTokenType]):
                 case AbstractQName():
                     if not isinstance(op2, (AbstractQName, UntypedAtomic)):
                         raise TypeError(msg.format(type(op1), type(op2)))
+                case AbstractDateTime():
+                    if isinstance(op2, AbstractDateTime) and \
+                            context is not None and context.timezone is not None:
+                        if op1.tzinfo is None:
+                            op1 = copy(op1)  # don't change the value of the caller
+                            op1.tzinfo = context.timezone
+                        if op2.tzinfo is None:
+                            op2 = copy(op2)
+                            op2.tzinfo = context.timezone
 
             yield op1, op2
 
